@@ -404,6 +404,7 @@ class ClauseCtx:
         self.old_state = old_state if old_state is not None else frame.entry
         self.result = result
         self.pre_state = None
+        self.iter_state = None
 
     def fresh_id(self):
         return self.eng.fresh_id()
@@ -423,8 +424,9 @@ class ClauseCtx:
 
     def lookup(self, name, old):
         e = self.eng
-        if old == 'pre':
-            if self.pre_state is None:
+        if old in ('pre', 'iter'):
+            snap = self.pre_state if old == 'pre' else (self.iter_state if self.iter_state is not None else e.st)
+            if snap is None:
                 raise ClauseError('pre() outside a loop invariant')
             f = self.frame
             if name in f.scope:
@@ -433,9 +435,9 @@ class ClauseCtx:
                 ct = e.tu.ctype(d['type'])
                 if did in f.cells:
                     r = f.cells[did]
-                    return self._wrap(self.pre_state.mem[r.id], ct) if r.kind == 'cell' else Ptr(r)
-                if did in self.pre_state.env:
-                    return self._wrap(self.pre_state.env[did], ct)
+                    return self._wrap(snap.mem[r.id], ct) if r.kind == 'cell' else Ptr(r)
+                if did in snap.env:
+                    return self._wrap(snap.env[did], ct)
             old = False
         if name == 'result' and self.result is not None:
             return self.result
@@ -522,6 +524,8 @@ class ClauseCtx:
             if self.pre_state is None:
                 raise ClauseError('pre() outside a loop invariant')
             return self.pre_state.mem
+        if old == 'iter':
+            return (self.iter_state if self.iter_state is not None else self.eng.st).mem
         if old:
             if self.old_state is None:
                 raise ClauseError('no old state')
